@@ -227,3 +227,98 @@ pub fn small_all_orders(out: &mut String, rng: &mut Rng, cases: usize) {
         all_orders_of(out, 5, code, &mut emitted);
     }
 }
+
+/// wide scope (C15): long orphan chains released by ONE apply (oldest node last), many orphans pending at once (a fan of
+/// concurrent writes on one root arriving before the root, then a join node over all of them), wide fan-in / fan-out; the
+/// same node set reaches a second replica in causal order and a third by merge – all must agree with the specification.
+/// (Chains stay far below the ~3600 nodes at which the recursion of the unchanged crate overflows the stack.)
+pub fn wide(out: &mut String, rng: &mut Rng, case_no: usize) {
+    writeln!(out, "T merkle 3").unwrap();
+    let mut names: Vec<String> = vec![];
+    let mut val = 1u64;
+    match case_no % 3 {
+        0 => {
+            // chain n0 <- n1 <- ... of 35..60 nodes, with a few side branches
+            let len = 35 + rng.below(26);
+            for i in 0..len {
+                let kids = if i == 0 { String::new() } else if i > 2 && rng.chance(1, 8) { format!("n{} n{}", i - 1, rng.below(i - 1)) } else { format!("n{}", i - 1) };
+                writeln!(out, "O n{} node {} {}", i, val, kids).unwrap();
+                val += 1;
+                names.push(format!("n{}", i));
+            }
+        }
+        1 => {
+            // root, a fan of 66..90 concurrent writes on it, one join node over all of them, a write on top
+            let fan = 66 + rng.below(25);
+            writeln!(out, "O n0 node {}", val).unwrap();
+            val += 1;
+            names.push("n0".into());
+            for i in 1..=fan {
+                writeln!(out, "O n{} node {} n0", i, val).unwrap();
+                val += 1;
+                names.push(format!("n{}", i));
+            }
+            let all: Vec<String> = (1..=fan).map(|i| format!("n{}", i)).collect();
+            writeln!(out, "O n{} node {} {}", fan + 1, val, all.join(" ")).unwrap();
+            val += 1;
+            names.push(format!("n{}", fan + 1));
+            writeln!(out, "O n{} node {} n{}", fan + 2, val, fan + 1).unwrap();
+            names.push(format!("n{}", fan + 2));
+        }
+        _ => {
+            // layered DAG: 6..9 layers of 4..7 nodes, each node lists 1..4 nodes of the previous layer
+            let layers = 6 + rng.below(4);
+            let mut prev: Vec<usize> = vec![];
+            let mut id = 0usize;
+            for _ in 0..layers {
+                let w = 4 + rng.below(4);
+                let mut cur = vec![];
+                for _ in 0..w {
+                    let mut kids: Vec<usize> = vec![];
+                    if !prev.is_empty() {
+                        for _ in 0..(1 + rng.below(4)) {
+                            let c = prev[rng.below(prev.len())];
+                            if !kids.contains(&c) {
+                                kids.push(c);
+                            }
+                        }
+                    }
+                    let kn: Vec<String> = kids.iter().map(|c| format!("n{}", c)).collect();
+                    writeln!(out, "O n{} node {} {}", id, val, kn.join(" ")).unwrap();
+                    val += 1;
+                    names.push(format!("n{}", id));
+                    cur.push(id);
+                    id += 1;
+                }
+                prev = cur;
+            }
+        }
+    }
+    // replica 0: causal order; replica 1: reverse order (every node before its children), with a read in the middle;
+    // replica 2: learns everything from merges
+    for nme in names.iter() {
+        writeln!(out, "D 0 {}", nme).unwrap();
+    }
+    let mut rev: Vec<&String> = names.iter().collect();
+    rev.reverse();
+    if rng.chance(1, 3) {
+        // mostly reversed: a random rotation keeps the long chains but varies the release point
+        let k = rng.below(rev.len());
+        rev.rotate_left(k);
+    }
+    for (i, nme) in rev.iter().enumerate() {
+        writeln!(out, "D 1 {}", nme).unwrap();
+        if i == rev.len() / 2 {
+            writeln!(out, "EQ 0 1").unwrap();
+            writeln!(out, "S 1 s0").unwrap();
+        }
+    }
+    writeln!(out, "EQ 0 1").unwrap();
+    writeln!(out, "MS 2 s0").unwrap();
+    writeln!(out, "M 2 0").unwrap();
+    writeln!(out, "EQ 0 2").unwrap();
+    writeln!(out, "G 1 w0 write {}", 5000 + val).unwrap();
+    writeln!(out, "D 0 w0").unwrap();
+    writeln!(out, "M 2 1").unwrap();
+    writeln!(out, "E").unwrap();
+}
